@@ -38,10 +38,15 @@ def _src(world):
     return s, world.sources[s]
 
 
-def _mkproj(world, tag):
+def _world(world_name):
+    """'<name>+log' = the same world built with log capture on (the default mode: a redo-log child, per-target log files)"""
+    return worlds.curated()[world_name.split("+")[0]]
+
+
+def _mkproj(world, tag, world_name=None):
     root = _W["root"] / f"{tag}_{os.getpid()}_{time.monotonic_ns()}"
     root.mkdir(parents=True)
-    return Project(world, _W["bindir"], root), root
+    return Project(world, _W["bindir"], root, log_mode=bool(world_name and world_name.endswith("+log"))), root
 
 
 def _reach(proj, world, prestate):
@@ -130,10 +135,10 @@ def count_run(world_name, prestate):
 
 def count_run_(world_name, prestate):
     """two counting runs; returns (crash points, per-process call counts, normalised sequences)"""
-    world = worlds.curated()[world_name]
+    world = _world(world_name)
     runs = []
     for i in range(2):
-        proj, root = _mkproj(world, "cnt")
+        proj, root = _mkproj(world, "cnt", world_name)
         try:
             _reach(proj, world, prestate)
             env, log, procs = e3.shim_env(proj.env, root, "count")
@@ -162,8 +167,8 @@ def script_points(world_name, prestate):
     """kill points at script boundaries (between redo's own system calls, while redo only waits for the script):
     for every script the build of this pre-state executes, its start, the point after each dependency group and the
     point after its output was written.  Found by a counting run that records which scripts run."""
-    world = worlds.curated()[world_name]
-    proj, root = _mkproj(world, "scnt")
+    world = _world(world_name)
+    proj, root = _mkproj(world, "scnt", world_name)
     try:
         try:
             _reach(proj, world, prestate)
@@ -192,8 +197,8 @@ def crash_job(args):
     world_name, prestate, scope, pt, expect_prefix = args
     probe = scope.endswith("+q")      # query commands between the crash and the recovery
     full_scope, scope = scope, scope[:-2] if scope.endswith("+q") else scope
-    world = worlds.curated()[world_name]
-    proj, root = _mkproj(world, "crash")
+    world = _world(world_name)
+    proj, root = _mkproj(world, "crash", world_name)
     t0 = time.time()
     fails = []
     tr = {"world": world_name, "prestate": prestate, "scope": full_scope, "lid": pt["lid"], "k": pt["k"],
@@ -312,7 +317,7 @@ def crash_job(args):
 
 PRESTATES = {"chain": ("first", "incr", "rmtarget", "override-rm"), "csum-mid": ("first", "incr", "incr2", "rmtarget", "override-rm"),
              "default": ("first", "incr"), "takeover": ("first", "do-removed"), "chain-append": ("first", "incr"), "dynamic": ("first", "incr"),
-             "csum-append": ("first", "incr", "incr2")}
+             "csum-append": ("first", "incr", "incr2"), "chain+log": ("first", "incr"), "csum-mid+log": ("incr2",)}
 
 
 def plan(tier):
@@ -324,6 +329,7 @@ def plan(tier):
         c += [("csum-append", ps, sc) for ps in PRESTATES["csum-append"] for sc in ("tree", "script", "sproc")]
         c += [(w, ps, "sproc") for w in ("csum-mid", "chain-append") for ps in PRESTATES[w]]
         c += [(w, ps, "tree+q") for w in ("chain", "csum-mid") for ps in PRESTATES[w]]
+        c += [("chain+log", ps, sc) for ps in PRESTATES["chain+log"] for sc in ("tree", "proc")]
         return c, True
     return [(w, ps, sc) for w in PRESTATES for ps in PRESTATES[w] for sc in ("proc", "tree", "script", "sproc", "tree+q")], False
 
